@@ -51,7 +51,7 @@ def run(tier):
     rep = Report("C47", tier, "other", RULE)
     allu = units_under("mfront/src", "mfront-query/src", "mfront-doc/src")
     core = [os.path.join(REPO, "mfront/src", x) for x in
-            ("MFront.cxx", "TargetsDescription.cxx", "LibraryDescription.cxx", "MFrontUtilities.cxx")]
+            ("MFront.cxx", "TargetsDescription.cxx", "LibraryDescription.cxx", "MFrontUtilities.cxx", "DSLUtilities.cxx")]
     for c in core:
         if c not in allu:
             raise AnalysisBroken("anchor unit missing from the build: " + c)
@@ -305,6 +305,48 @@ def run(tier):
             for v in sorted(extra_values):
                 if not any(n["k"] == "StringLiteral" and n.get("value") == v for n in wf.stmts.values()):
                     rep.fail("TYPE-VALUE@%s" % v, "library type value %s accepted by the reader is not written" % v)
+    # ---- R5 escaping agreement between the writer of string lists and the readers of strings
+    def escapes(fn):
+        """set of (from, to) replacements applied by fn (replace_all calls; std::quoted = the two standard escapes)."""
+        res = set()
+        quoted = False
+        for g in with_lambdas(fn):
+            for sid, n in g.stmts.items():
+                if n["k"] != "CallExpr":
+                    continue
+                c = n.get("callee") or ""
+                if c.endswith("replace_all") and len(n.get("args", [])) >= 3:
+                    l1 = [g.stmts[x].get("value") for x in g.walk(n["args"][1]) if g.stmts[x]["k"] == "StringLiteral"]
+                    l2 = [g.stmts[x].get("value") for x in g.walk(n["args"][2]) if g.stmts[x]["k"] == "StringLiteral"]
+                    if len(l1) == 1 and len(l2) == 1:
+                        res.add((l1[0], l2[0]))
+                    else:
+                        raise AnalysisBroken("%s: replace_all with non-literal arguments" % fn.qname)
+                if c == "std::quoted":
+                    quoted = True
+        if quoted:
+            res |= {('"', '\\"'), ("\\", "\\\\")}
+        return res
+    w_str = [f for f in funcs if f.qname == "mfront::write" and len(f.params) == 3 and "vector" in f.params[1]["type"] and f.parent is None]
+    r_str = [f for f in funcs if f.qname == "mfront::read" and f.parent is None and
+             (f.d["ret"].startswith("std::basic_string") or f.d["ret"].startswith("std::vector<std::basic_string"))]
+    if not w_str or len(set(f.d["ret"] for f in r_str)) < 2:
+        raise AnalysisBroken("string-list writer / string readers not found (%d / %d)" % (len(w_str), len(r_str)))
+    we = escapes(w_str[0])
+    if not we:
+        raise AnalysisBroken("mfront::write(strings): escaping idiom not recognised (neither replace_all nor std::quoted)")
+    for rf in r_str:
+        rep.count("escaping agreements")
+        re_ = escapes(rf)
+        inv = set((b, a) for a, b in we)
+        kind = "std::vector<std::string>" if rf.d["ret"].startswith("std::vector") else "std::string"
+        if re_ == inv:
+            rep.ok("read<%s> undoes exactly the escapes applied by write(strings): %s" % (kind, sorted(we)))
+        else:
+            rep.fail("ESCAPING@read<%s>" % kind, "%s: write(os, strings, id) escapes %s but read<%s> undoes %s: a string containing %s does not "
+                     "survive a write/read cycle, so the registry changes from run to run" % (rel(rf.loc), sorted(we), kind, sorted(re_),
+                                                                                             sorted(a for a, b in (we ^ set((b2, a2) for a2, b2 in re_)))))
+    rep.floor("escaping agreements", 2)
     rep.floor("functions naming the registry file", 2)
     rep.floor("field-coverage obligations", 39)
     rep.floor("labels compared", 20)
